@@ -13,7 +13,7 @@ from mc.runner import Stats
 ID = "C58"
 LEVEL = "model_checking"
 TECHNIQUE = "explicit-state BFS over event histories on the real ClientService, observational reference oracle"
-RULE = ("BFS over histories of startService / stopService / whenConnected(None|1|2|3) / attempt succeeds / "
+RULE = ("BFS over histories of startService / stopService / whenConnected(None|0|1|2|3) / attempt succeeds / "
         "attempt fails / prepareConnection Deferred fires ok|fail / connectionLost on any open transport / "
         "clock to next retry / clock half-way, executed on a real ClientService for every configuration "
         "(prepareConnection in {absent, ok, raises, closes-then-raises, Deferred}, endpoint answering "
@@ -43,7 +43,7 @@ ASSUMPTIONS = [
 ]
 LEVEL_TEXT = ("Every history of the stated alphabet up to the depth bound is executed on the real "
               "ClientService; states are merged by a canonical hash; the invariant is evaluated after every transition.")
-MIN = {"quick": {"states": 42000, "transitions": 135000, "nontrivial": 41000, "outcomes": 18},
+MIN = {"quick": {"states": 66000, "transitions": 220000, "nontrivial": 65000, "outcomes": 18},
        "thorough": {"states": 160000, "transitions": 545000, "nontrivial": 158000, "outcomes": 18}}
 
 P = "ClientService:"
@@ -684,7 +684,7 @@ def apply(st, ev):
 def enabled(st):
     evs = [("start",), ("stop",)]
     if len(st.waiters) < MAXW:
-        evs += [("wc", None), ("wc", 1), ("wc", 2), ("wc", 3)]
+        evs += [("wc", None), ("wc", 0), ("wc", 1), ("wc", 2), ("wc", 3)]
     cur = st.cur
     if cur is not None:
         if cur.stage == "attempt" and not cur.d.called:
